@@ -181,30 +181,28 @@ pub unsafe fn simd_prefix_search_avx2(
         let cmp_eq = _mm256_cmpeq_epi32(_mm256_set1_epi32(target_prefix as i32), batch);
         let eq_mask = _mm256_movemask_epi8(cmp_eq) as u32;
 
-        if lt_mask == 0xFFFFFFFF {
+        // Slots are sorted, so the slots whose prefix is below the target form a
+        // leading run of the batch and those at or below it a longer leading run.
+        let lt_count = (lt_mask.trailing_ones() / 4) as usize;
+        let le_count = ((lt_mask | eq_mask).trailing_ones() / 4) as usize;
+
+        if lt_count == AVX2_BATCH_SIZE {
             left = batch_start + AVX2_BATCH_SIZE;
             continue;
-        } else if lt_mask == 0 {
+        } else if le_count == 0 {
             right = batch_start;
             continue;
         }
 
-        let first_ge_idx = (lt_mask.trailing_ones() / 4) as usize;
-
-        if first_ge_idx > 0 {
-            left = batch_start + first_ge_idx - 1;
+        // The batch straddles the target prefix: every slot before `lt_count` is
+        // smaller and every slot from `le_count` on is larger. Slots with an equal
+        // prefix must stay inside the range (the run may extend past either end of
+        // the batch); the caller resolves them by comparing full keys.
+        if lt_count > 0 {
+            left = batch_start + lt_count;
         }
-        right = batch_start + first_ge_idx.min(7) + 1;
-
-        if eq_mask != 0 {
-            let first_eq_idx = (eq_mask.trailing_zeros() / 4) as usize;
-            let last_eq_idx = if eq_mask.leading_zeros() == 0 {
-                7
-            } else {
-                (31 - eq_mask.leading_zeros()) as usize / 4
-            };
-            left = left.min(batch_start + first_eq_idx);
-            right = right.max(batch_start + last_eq_idx + 1);
+        if le_count < AVX2_BATCH_SIZE {
+            right = batch_start + le_count;
         }
 
         break;
